@@ -231,20 +231,8 @@ Definition tbl : table := Eval vm_compute in build nodes.
 (** hand-written lists, matched BY NAME against the regenerated table (relative to the package root) *)
 Local Open Scope string_scope.
 (** root causes of the known findings: the nodes whose own body brings in a forbidden source *)
-Definition roots_os : list String.string := [   (* C08-ga-os-entropy : pymoo minimize() without seed *)
-  "opt.algo.BinaryGeneticAlgorithm.BinaryGeneticAlgorithm.minimize";
-  "opt.algo.IntegerGeneticAlgorithm.IntegerGeneticAlgorithm.minimize";
-  "opt.algo.RealGeneticAlgorithm.RealGeneticAlgorithm.minimize";
-  "opt.algo.SubsetGeneticAlgorithm.SubsetGeneticAlgorithm.minimize";
-  "opt.algo.NSGA2BinaryGeneticAlgorithm.NSGA2BinaryGeneticAlgorithm.minimize";
-  "opt.algo.NSGA2IntegerGeneticAlgorithm.NSGA2IntegerGeneticAlgorithm.minimize";
-  "opt.algo.NSGA2RealGeneticAlgorithm.NSGA2RealGeneticAlgorithm.minimize";
-  "opt.algo.NSGA2SubsetGeneticAlgorithm.NSGA2SubsetGeneticAlgorithm.minimize";
-  "opt.algo.NSGA3SubsetGeneticAlgorithm.NSGA3SubsetGeneticAlgorithm.minimize";
-  "opt.algo.NSGA2MemeticSubsetGeneticAlgorithm.NSGA2MutatorASubsetGeneticAlgorithm.minimize";
-  "opt.algo.NSGA2MemeticSubsetGeneticAlgorithm.NSGA2MutatorBSubsetGeneticAlgorithm.minimize";
-  "opt.algo.NSGA2MemeticSubsetGeneticAlgorithm.NSGA2SteepestDescentSubsetGeneticAlgorithm.minimize";
-  "opt.algo.NSGA2MemeticSubsetGeneticAlgorithm.NSGA2StochasticDescentSubsetGeneticAlgorithm.minimize" ].
+(** (C08-ga-os-entropy was repaired in the source: every pymoo minimize() call now passes seed = f(self.rng); there is no
+    OS-entropy root any more — the translator reports OS at any minimize() call site that passes no seed) *)
 Definition roots_addon : list String.string := [   (* C08-ga-ignores-rng : operators draw from numpy.random *)
   "opt.algo.pymoo_addon.tiled_choice";
   "opt.algo.pymoo_addon.SubsetRandomSampling._do";
@@ -297,7 +285,7 @@ Definition roots_py : list String.string := [   (* C08-deap-python-random : pyth
 (** the seeding interface itself: by design it writes both global streams *)
 Definition roots_prng : list String.string := [ "core.random.prng.seed"; "core.random.prng.spawn" ].
 Definition root_names : list String.string :=
-  roots_os ++ roots_addon ++ roots_selcfg ++ roots_global_helpers ++ roots_py ++ roots_prng.
+  roots_addon ++ roots_selcfg ++ roots_global_helpers ++ roots_py ++ roots_prng.
 
 (** components that the property anchors: they MUST be explicit-only (no exception applies to them) *)
 Definition must_be_explicit : list String.string := [
@@ -332,7 +320,14 @@ Definition must_be_explicit : list String.string := [
   "breed.prot.sel.cfg.RealMateSelectionConfiguration.RealMateSelectionConfiguration.__init__";
   "opt.algo.SteepestDescentSubsetHillClimber.SteepestDescentSubsetHillClimber.minimize";
   "opt.algo.SteepestDescentSubsetHillClimber.SteepestDescentSubsetHillClimber.__init__";
-  "opt.algo.UnconstrainedSteepestAscentSetHillClimber.UnconstrainedSteepestAscentSetHillClimber.optimize" ].
+  "opt.algo.UnconstrainedSteepestAscentSetHillClimber.UnconstrainedSteepestAscentSetHillClimber.optimize";
+  (* pymoo-based optimisers whose operators are pymoo's own: pymoo's generator is seeded from self.rng *)
+  "opt.algo.BinaryGeneticAlgorithm.BinaryGeneticAlgorithm.minimize"; "opt.algo.BinaryGeneticAlgorithm.BinaryGeneticAlgorithm.__init__";
+  "opt.algo.IntegerGeneticAlgorithm.IntegerGeneticAlgorithm.minimize"; "opt.algo.IntegerGeneticAlgorithm.IntegerGeneticAlgorithm.__init__";
+  "opt.algo.RealGeneticAlgorithm.RealGeneticAlgorithm.minimize"; "opt.algo.RealGeneticAlgorithm.RealGeneticAlgorithm.__init__";
+  "opt.algo.NSGA2BinaryGeneticAlgorithm.NSGA2BinaryGeneticAlgorithm.minimize"; "opt.algo.NSGA2BinaryGeneticAlgorithm.NSGA2BinaryGeneticAlgorithm.__init__";
+  "opt.algo.NSGA2IntegerGeneticAlgorithm.NSGA2IntegerGeneticAlgorithm.minimize"; "opt.algo.NSGA2IntegerGeneticAlgorithm.NSGA2IntegerGeneticAlgorithm.__init__";
+  "opt.algo.NSGA2RealGeneticAlgorithm.NSGA2RealGeneticAlgorithm.minimize"; "opt.algo.NSGA2RealGeneticAlgorithm.NSGA2RealGeneticAlgorithm.__init__" ].
 (** components that use the global stream by design (no rng argument): reproducible after seeding *)
 Definition global_by_design : list String.string := [
   "popgen.cmat.DenseCoancestryMatrix.DenseCoancestryMatrix.apply_jitter";
@@ -342,18 +337,15 @@ Local Close Scope string_scope.
 
 Definition opt_list {A} (o : option (list A)) : list A := match o with Some l => l | None => [] end.
 Definition root_ids : list positive := Eval vm_compute in opt_list (ids_of root_names).
-Definition os_root_ids : list positive := Eval vm_compute in opt_list (ids_of roots_os).
 Definition must_ids : list positive := Eval vm_compute in opt_list (ids_of must_be_explicit).
 Definition global_ids : list positive := Eval vm_compute in opt_list (ids_of global_by_design).
 
 (** direct masks: as they are / with the named root causes blanked out *)
 Definition dir_full (n : positive) (d : N) : N := d.
 Definition dir_excl (n : positive) (d : N) : N := if pmem n root_ids then 0 else d.
-Definition dir_excl_os (n : positive) (d : N) : N := if pmem n os_root_ids then 0 else d.
 
 Definition fp_full : fpmap := Eval vm_compute in compute dir_full tbl.
 Definition fp_excl : fpmap := Eval vm_compute in compute dir_excl tbl.
-Definition fp_excl_os : fpmap := Eval vm_compute in compute dir_excl_os tbl.
 
 (** ** lookups used by the correspondence shards *)
 (** the footprint a dynamic experiment is compared with: the full closure; for a program made of anchored components only,
